@@ -1,4 +1,108 @@
 import GModel.Traj
+import GProofs.C01
+import GProofs.C15
+/-!
+# C13 — drift correction removes exactly the reference-frame motion
+
+Model: `GModel.Traj.driftAll / driftSel / applyDrift` (the selection path goes through
+`filter`, i.e. through wrapped positions, exactly as the code does).
+
+Algebraic core
+* `mean_sub_mean`        the mean over a non-empty selection of `d_a − mean_b d_b` is zero
+* `minImg1_small`        a step of size < ½ survives the round trip through positions modulo 1
+* `minImg1_small_shift`  … also after adding whole cells
+
+End to end (list-level model)
+* `corrected_shape`      result is stored as displacements with the ORIGINAL base positions
+* `first_frame_unchanged`
+* `residual_drift_zero`  after correction the mean per-frame displacement of the reference atoms
+                         is zero in every frame (under `SmallSteps`)
+* `idempotent`           correcting again changes nothing (under `SmallSteps`)
+* `small_steps_needed`   without `SmallSteps` a second correction can change the data
+
+The hypothesis `SmallSteps` (every corrected step stays below half a cell) is a domain
+precondition: positions modulo 1 cannot represent a larger step.  An EMPTY selection is excluded
+explicitly: Lean's `0 / 0 = 0` would make the statements hold for the wrong reason where numpy
+yields NaN.
+-/
 namespace G.C13
-theorem placeholder : True := trivial
+open G G.Traj G.C01
+
+/-! ## algebraic core -/
+
+/-- mean of a list of rationals -/
+def mean (l : List ℚ) : ℚ := l.sum / l.length
+
+/-- **C13 (core)**: subtracting the mean of a non-empty selection from each member leaves a
+selection whose mean is zero. -/
+theorem mean_sub_mean (l : List ℚ) (hne : l ≠ []) : mean (l.map (· - mean l)) = 0 := by
+  sorry
+
+/-- a step smaller than half a cell is its own minimum image … -/
+theorem minImg1_small (x : ℚ) (h : |x| < 1 / 2) : minImg1 x = x := by
+  sorry
+
+/-- … also when whole cells were added in between (positions are only known modulo 1) -/
+theorem minImg1_small_shift (x : ℚ) (k : ℤ) (h : |x| < 1 / 2) : minImg1 (x + k) = x := by
+  sorry
+
+/-- the drift of frame 0 is zero because the first displacement frame is zero -/
+theorem meanAll_zero (f : Frame) (h : ∀ v ∈ f, v = 0) : meanAll f = V3.zero := by
+  sorry
+
+/-! ## end to end -/
+
+/-- **C13 (shape)**: the corrected trajectory is stored as displacements and keeps the original
+base positions. -/
+theorem corrected_shape (mask : Option (List Bool)) (s : TState) :
+    (applyDrift mask s).2.disp = true ∧ (applyDrift mask s).2.base = (displacements (match mask with
+      | some m => (driftSel m s).1 | none => (driftAll s).1)).1.base := by
+  sorry
+
+theorem corrected_base (mask : Option (List Bool)) (s : TState) : (applyDrift mask s).2.base = s.base := by
+  sorry
+
+/-- **C13 (first frame)**: the first frame of the corrected trajectory is the first frame of the source. -/
+theorem first_frame_unchanged (n : Nat) (mask : Option (List Bool)) (s : TState) (h : G.C15.WF n s) :
+    (absPos (applyDrift mask s).2).head? = (absPos s).head? := by
+  sorry
+
+/-- the selection picks at least one atom of an `n/3`-atom frame -/
+def NonEmptySel (mask : List Bool) (n : Nat) : Prop := ∃ a, a < n / 3 ∧ mask.getD a false = true
+
+/-- every corrected step (all atoms, all frames, all components) is below half a cell -/
+def SmallSteps (mask : List Bool) (s : TState) : Prop :=
+  ∀ f ∈ (applyDrift (some mask) s).2.coords, ∀ v ∈ f, |v| < 1 / 2
+
+/-- **C13 (residual drift)**: after correction with respect to a non-empty reference selection the
+mean per-frame displacement of that selection is zero in every frame. -/
+theorem residual_drift_zero (n : Nat) (mask : List Bool) (s : TState) (h : G.C15.WF n s) (h3 : 3 ∣ n)
+    (hsel : NonEmptySel mask n) (hsmall : SmallSteps mask s) :
+    ∀ v ∈ (driftSel mask (applyDrift (some mask) s).2).2, v = V3.zero := by
+  sorry
+
+/-- **C13 (idempotent)**: applying the correction again changes nothing. -/
+theorem idempotent (n : Nat) (mask : List Bool) (s : TState) (h : G.C15.WF n s) (h3 : 3 ∣ n)
+    (hsel : NonEmptySel mask n) (hsmall : SmallSteps mask s) :
+    absPos (applyDrift (some mask) (applyDrift (some mask) s).2).2 = absPos (applyDrift (some mask) s).2 := by
+  sorry
+
+/-- without `SmallSteps` the statement fails: reference atom steps +3/8, the other atom −3/8, so the
+corrected step of the second atom is −3/4, which positions modulo 1 turn into +1/4 -/
+theorem small_steps_needed :
+    let s := fresh [[0, 0, 0, 0, 0, 0], [3/8, 0, 0, -3/8, 0, 0]]
+    let c1 := (applyDrift (some [true, false]) s).2
+    let c2 := (applyDrift (some [true, false]) c1).2
+    c1.coords ≠ c2.coords := by
+  decide +kernel
+
+/-- non-vacuity: two reference atoms moving differently, one floating atom -/
+example :
+    let s := fresh [[1/8, 0, 0, 1/2, 0, 0, 7/8, 0, 0], [1/4, 0, 0, 1/2, 0, 0, 1/8, 0, 0]]
+    (driftSel [true, true, false] s).2 = [V3.zero, ⟨1/16, 0, 0⟩] ∧
+    absPos (applyDrift (some [true, true, false]) s).2
+      = [[1/8, 0, 0, 1/2, 0, 0, 7/8, 0, 0], [3/16, 0, 0, 7/16, 0, 0, 1/16, 0, 0]] ∧
+    (driftSel [true, true, false] (applyDrift (some [true, true, false]) s).2).2 = [V3.zero, V3.zero] := by
+  decide +kernel
+
 end G.C13
